@@ -367,6 +367,33 @@ func runJCase(srv *lrsrv.Srv, c jcase, sec *vh.Section) (lines, impls []string, 
 		// SPEC (ranged iterator, the SAME object with whatever its selector has cached): from head, forward, it must
 		// deliver every stored record whose timestamp is in the range, in stored order (it may deliver more: the
 		// window is only an optimisation, the filter above it drops the rest)
+		// (1) the INPUT CONTRACT of the ranged theorems (Props/C03Ranged.lean, WinSound), checked on the windows the REAL
+		// selector computes over the real time index: every stored record whose timestamp is in the range lies inside
+		// the window of its chunk (windows may be wider)
+		if bad := windowContract(w.Layout(0, tr), c.Range[0], c.Range[1]); bad != "" {
+			res.SpecFail(vh.SpecFailure{Section: "jiter", Kind: "window-contract", Input: c, Impl: bad, Spec: "every in-range record of a chunk has its index in [minPos,maxPos] of the chunk",
+				What: "a chunk window computed by chkSelector.updatePoss over the time index excludes a record whose timestamp is in the range"})
+		}
+		// (2) SPEC at the level of the abstraction the theorems use (ranged_drain_take / rSpecDrain): a drain from the
+		// CURRENT state in the CURRENT direction delivers the admitted records from the iterator's index on (forward) or
+		// at/before its position in reverse (backward); the model answers `n/a` when the state is outside RWF
+		{
+			var got []int
+			for k := 0; k < 100000; k++ {
+				l := recLabel(it.Get(ctx))
+				if l == "eof" || strings.HasPrefix(l, "ERR") {
+					break
+				}
+				n, _ := strconv.Atoi(l)
+				got = append(got, n)
+				it.Next(ctx)
+			}
+			dir := "f "
+			if bk {
+				dir = "b "
+			}
+			add("it.spec", dir+rdh.IntsStr(got))
+		}
 		it.SetBackward(false)
 		it.SetPos(journal.Pos{})
 		delivered := map[int]bool{}
@@ -402,6 +429,31 @@ func runJCase(srv *lrsrv.Srv, c jcase, sec *vh.Section) (lines, impls []string, 
 		}
 	}
 	return
+}
+
+// windowContract checks, on a layout line (`src n cid;min;max;lbl/ts/keep,…`), that every record with lo <= ts <= hi has
+// its index inside [min,max] of its chunk; returns a description of the first offender
+func windowContract(layout string, lo, hi int64) string {
+	f := strings.Fields(layout)
+	for _, ck := range f[2:] {
+		q := strings.Split(ck, ";")
+		if len(q) != 4 || q[3] == "" {
+			continue
+		}
+		mn, _ := strconv.ParseUint(q[1], 10, 64)
+		mx, _ := strconv.ParseUint(q[2], 10, 64)
+		for idx, r := range strings.Split(q[3], ",") {
+			e := strings.Split(r, "/")
+			if len(e) != 3 {
+				continue
+			}
+			ts, _ := strconv.ParseInt(e[1], 10, 64)
+			if ts >= lo && ts <= hi && (uint64(idx) < mn || uint64(idx) > mx) {
+				return fmt.Sprintf("chunk %s window [%d,%d]: record %s at index %d has ts %d in [%d,%d]", q[0], mn, mx, e[0], idx, ts, lo, hi)
+			}
+		}
+	}
+	return ""
 }
 
 func sectionJIter(rng *vh.Rng) {
@@ -495,6 +547,15 @@ func runJCases(cases []jcase, sec *vh.Section, verbose bool) {
 		for j := range o.lines {
 			if verbose {
 				fmt.Printf("%-40.40s impl=%s model=%s\n", o.lines[j], o.impls[j], ans[k])
+			}
+			if o.lines[j] == "it.spec" && cases[i].Ranged {
+				if ans[k] == "n/a" {
+					res.Dist(sec, "rng-spec:n/a (state outside RWF)")
+					k++
+					continue
+				}
+				res.Dist(sec, "rng-spec:checked "+strings.Fields(ans[k])[0])
+				res.Eval(sec, "rng-spec "+o.impls[j])
 			}
 			if ans[k] != o.impls[j] {
 				if o.lines[j] == "it.spec" {
